@@ -12,3 +12,46 @@ ASSUMPTIONS = ["atomicity of the sections between yield points (each runs under 
                "real time is not modelled: 'bounded time' is bounded steps + progress; wall-clock is not measured here (partial)",
                "Go's runtime scheduler inside an atomic section is irrelevant by construction; a select that finds both channels ready may take either branch: the model follows the branch observed"]
 PARTS = [ConcPart(PROP, 2)]
+
+
+# ---- lock skeleton: translator tie (regenerated from /repo on every run) ----
+import os, re, subprocess
+from . import core
+
+SKEL_THEOREMS = ["C07_lock_discipline", "C07_policy_before_data", "C07_handlers_do_not_reenter",
+                 "C07_blocking_send_under_locks_without_capacity"]
+
+
+def extra_problems(tier):
+    gen = os.path.join(core.COQ, "gen")
+    with core.Lock("skel"):
+        rc, out = core.sh(["go", "build", "-o", os.path.join(core.BIN, "skel"), "."], cwd=os.path.join(core.VERIF, "tools", "skel"), env=core.GOENV, timeout=600)
+        if rc != 0:
+            return [{"kind": "theorem", "what": "the skeleton translator tools/skel does not build", "log": out[-1500:]}], None
+        p = subprocess.run([os.path.join(core.BIN, "skel"), core.REPO], stdout=subprocess.PIPE, stderr=subprocess.PIPE, text=True, timeout=120)
+        if p.returncode != 0:
+            return [{"kind": "theorem", "what": "tools/skel could not parse the sources", "log": p.stderr[-1500:]}], None
+        path = os.path.join(gen, "SkelGen.v")
+        old = open(path).read() if os.path.exists(path) else None
+        if old != p.stdout:
+            open(path, "w").write(p.stdout)
+        nfun = p.stdout.count("\n  (\"")
+        rc1, out1 = core.sh(["timeout", "300", "coqc", "-Q", core.COQ, "Xds", "-w", "none", path], cwd=core.COQ, timeout=330)
+        rc2, out2 = (1, "") if rc1 != 0 else core.sh(["timeout", "300", "coqc", "-Q", core.COQ, "Xds", "-w", "none", os.path.join(gen, "SkelTheorems.v")], cwd=core.COQ, timeout=330)
+    info = {"obligations": len(SKEL_THEOREMS), "discharged": 0, "theorems": SKEL_THEOREMS, "assumptions": {},
+            "info": {"translator": "tools/skel (go/ast) -> coq/gen/SkelGen.v", "functions_transcribed": nfun,
+                     "irregular_constructs": p.stdout.count("Irregular "), "source_files": ["core/manager/manager.go", "core/manager/client.go",
+                     "xdssuite/circuitbreak.go", "xdssuite/retry.go", "xdssuite/limiter.go"]}}
+    if rc1 == 0 and rc2 == 0:
+        closed = out2.count("Closed under the global context")
+        info["discharged"] = len(SKEL_THEOREMS)
+        for t in SKEL_THEOREMS:
+            info["assumptions"][t] = "Closed under the global context" if closed >= len(SKEL_THEOREMS) else out2[-300:]
+        return [], info
+    # which function breaks which rule
+    diag = core.coq_show("C07", tier, "From Xds Require Import Model.Base Model.Skel gen.SkelGen.",
+                         "(filter (fun x => negb (v_all (sv (snd x))) || negb (sv_handler_first (snd x))) (map (fun f => (f, check_function true skel f)) entry_points), "
+                         "check_policy_before_data skel, check_update_is_one_section skel, check_no_reentry skel, v_block (sv (check_all false skel)))", tag="skeldiag") if rc1 == 0 else out1[-800:]
+    return [{"kind": "theorem", "what": "the theorems of coq/gen/SkelTheorems.v about the lock skeleton regenerated from /repo no longer check "
+                                        "(lock order / lock-set / blocking under lock / handlers inside the write section / no re-entry)",
+             "offending (function, verdict) pairs and the three structural checks": diag, "coqc": (out1 + out2)[-1200:]}], info
